@@ -137,15 +137,18 @@ def wit_jobs(ctx):
     # (side, ver, programs, record kinds, targets, renegotiation allowed)
     if ctx.quick:
         plan = [("client", "1.2", "ProgsWitQ", '{"d1"}', "AllTags", False),
-                ("client", "1.3", "ProgsKuQ", '{"ku"}', "KuTags", False),
-                ("client", "1.2", "ProgsRnQ", '{"d1","hr"}', "RnTags", True)]
+                ("client", "1.3", "ProgsKuQ", '{"ku","bad"}', "KuTags", False),
+                ("client", "1.2", "ProgsRnQ", '{"d1","hr","bad"}', "RnTags", True),
+                ("server", "1.2", "ProgsKuQ", '{"bad"}', "BadTags", False)]
     else:
         plan = [("client", "1.2", "ProgsWit", '{"d1","d2"}', "AllTags", False),
                 ("client", "1.3", "ProgsWitQ", '{"d1","d2"}', "AllTags", False),
                 ("server", "1.2", "ProgsWitQ", '{"d1","d2"}', "AllTags", False),
                 ("server", "1.3", "ProgsWitQ", '{"d1","d2"}', "AllTags", False),
-                ("client", "1.3", "ProgsKu", '{"d1","ku","kun"}', "KuTags", False),
-                ("client", "1.2", "ProgsRn", '{"d1","hr"}', "RnTags", True)]
+                ("client", "1.3", "ProgsKu", '{"d1","ku","kun","bad"}', "KuTags", False),
+                ("client", "1.2", "ProgsRn", '{"d1","hr","bad"}', "RnTags", True),
+                ("server", "1.2", "ProgsKu", '{"d1","bad"}', "BadTags", False),
+                ("server", "1.3", "ProgsKu", '{"d1","bad"}', "BadTags", False)]
     for side, ver, progs, kinds, targets, reneg in plan:
         s = dict(base, PROGS=progs, SHAPE=SHAPES[(side, ver)], KINDS=kinds, TARGETS=targets,
                  MAXPEER="1" if ctx.quick else "2", RENEG="TRUE" if reneg else "FALSE")
@@ -191,8 +194,8 @@ def mc_jobs(ctx):
 
     if q:
         add("safety client12 ProgsQ", "TLSConn_mc.cfg")
-        add("safety renegotiation ProgsRnQ", "TLSConn_mc.cfg", PROGS="ProgsRnQ", RENEG="TRUE", KINDS='{"d1","hr"}')
-        add("safety KeyUpdate ProgsKuQ", "TLSConn_mc.cfg", PROGS="ProgsKuQ", SHAPE="ShapeClient13", KINDS='{"d1","ku"}')
+        add("safety renegotiation+bad record ProgsRnQ", "TLSConn_mc.cfg", PROGS="ProgsRnQ", RENEG="TRUE", KINDS='{"d1","hr","bad"}')
+        add("safety KeyUpdate+bad record ProgsKuQ", "TLSConn_mc.cfg", PROGS="ProgsKuQ", SHAPE="ShapeClient13", KINDS='{"d1","ku","bad"}')
         add("liveness G2", "TLSConn_live.cfg", G="G2", PROGS="ProgsLive2", MAXPEER="1")
     else:
         add("safety client12 ProgsQuick", "TLSConn_mc.cfg", PROGS="ProgsQuick", coverage=True, timeout=3000,
@@ -205,7 +208,9 @@ def mc_jobs(ctx):
             timeout=3000, coverage=True)
         add("safety HelloRequest refused ProgsRn", "TLSConn_mc.cfg", PROGS="ProgsRn", RENEG="FALSE", KINDS='{"d1","hr"}',
             MAXPEER="2", timeout=3000, coverage=True)
-        add("safety KeyUpdate ProgsKu", "TLSConn_mc.cfg", PROGS="ProgsKu", SHAPE="ShapeClient13", KINDS='{"d1","ku","kun"}',
+        add("safety KeyUpdate+bad record ProgsKu", "TLSConn_mc.cfg", PROGS="ProgsKu", SHAPE="ShapeClient13", KINDS='{"d1","ku","kun","bad"}',
+            MAXPEER="2", timeout=3000)
+        add("safety bad record server12 ProgsKu", "TLSConn_mc.cfg", PROGS="ProgsKu", SHAPE="ShapeServer12", KINDS='{"d1","bad"}',
             MAXPEER="2", timeout=3000)
         add("liveness proto", "TLSConn_live.cfg", PROGS="ProgsProto", MAXPEER="1", timeout=3000)
         add("liveness ProgsQ ku", "TLSConn_live.cfg", PROGS="ProgsQ", SHAPE="ShapeClient13", KINDS='{"d2","ku"}', timeout=3000)
@@ -216,6 +221,8 @@ def mc_jobs(ctx):
             MUT='{"rn_store_early"}', expect_violation=True)
         add("model mutation ku_nolock", "TLSConn_mc.cfg", PROGS="ProgsKu", SHAPE="ShapeClient13", KINDS='{"d1","ku","kun"}',
             MAXPEER="2", MUT='{"ku_nolock"}', expect_violation=True)
+        add("model mutation al_nolock", "TLSConn_mc.cfg", PROGS="ProgsKu", SHAPE="ShapeClient13", KINDS='{"d1","bad"}',
+            MAXPEER="2", MUT='{"al_nolock"}', expect_violation=True)
         # a peer that goes through with the renegotiation (no zcrypto peer does): design-level prediction only
         add("prediction: renegotiation accepted by the peer", "TLSConn_mc.cfg", PROGS="ProgsRn", RENEG="TRUE", RENEGOK="TRUE",
             KINDS='{"d1","hr"}', MAXPEER="2", timeout=3000, prediction=True)
@@ -279,7 +286,7 @@ def random_schedule(rng):
         elif x < 0.97 and not starts:
             ev.append({"t": "pc", "m": rng.choice(["cn", "abort"])})
         elif x < 0.985:
-            ev.append({"t": rng.choice(["ku", "kun", "hr"])})   # applies to TLS 1.3 (ku) / TLS <= 1.2 (hr) only
+            ev.append({"t": rng.choice(["ku", "kun", "hr", "bad"])})   # ku: TLS 1.3 only, hr: TLS <= 1.2 only
         elif len(ev) > 60:
             break
     return {"progs": progs, "ev": ev}
@@ -431,6 +438,9 @@ def stream_sig(rej, sched):
             opened[(e["g"], e["k"])] = e["call"]
         elif e.get("ev") == "ce":
             opened.pop((e["g"], e["k"]), None)
+    if last.get("ev") == "dblw":
+        return {"kind": "stream", "at": "overlapping transport writes", "call": "", "side": sched.get("side"),
+                "ver": sched.get("ver"), "mode": sched.get("mode")}
     if last.get("ev") == "final" and opened:
         return {"kind": "stuck", "calls": sorted(set(opened.values())), "side": sched.get("side"), "ver": sched.get("ver"),
                 "mode": sched.get("mode")}
